@@ -6,6 +6,8 @@ observation of the source taken through the public views (xgimon.oracles_c10).  
 independence of from_bipartite_graph (the oracle is the network the graph was drawn from), the
 class-to-class constructors, and the documented refusal of colliding string casts by to_hypergraph_dict.
 """
+import random
+
 import networkx as nx
 import numpy as np
 
@@ -101,12 +103,19 @@ class Ctx:
         self.mon, self.net, self.info, self.src = mon, net, info, src
         self.cls = src.cls
         self.override = None  # trigger class that replaces the pair's own while a second-call monitor runs
+        self.collecting = None  # list: firings are held back until a control experiment has attributed them
+        self.nfired = self.mark = 0
+        self.no_again = False
 
     def witness(self, extra=""):
         return "construction:\n  " + "\n  ".join(self.info["hist"]) + f"\nsource: {self.src.brief()}\n{extra}"
 
     def fire(self, name, trigger, clause, what, wit):
-        self.mon.fail(f"{name}|{self.override or trigger}|{clause}", what, wit)
+        self.nfired += 1
+        if self.collecting is not None:
+            self.collecting.append((f"{name}|{self.override or trigger}|{clause}", what, wit))
+        else:
+            self.mon.fail(f"{name}|{self.override or trigger}|{clause}", what, wit)
 
     def check(self, pair, trigger, exp, back, clauses, variant="", name=None):
         """Compare one returned network with what the source demands."""
@@ -136,7 +145,7 @@ class Ctx:
     def again(self, rng, back, remake, compare):
         """Second call of the from_* side on the *same* representation object, after the first result was defaced:
         the second result must again be what the source demands (a from_* that hands out a cached network fails here)."""
-        if self.override or rng.random() > 0.3:
+        if self.override or self.no_again or rng.random() > 0.3 or self.nfired > self.mark:  # (a pair that has just fired is not probed further)
             return
         try:
             O.scribble(back)
@@ -450,6 +459,7 @@ def case_roundtrip(mon, idx, rng):
     before = repr(O.obs(c.net).brief())
     for pair, classes in PAIRS.items():
         if cls in classes:
+            c.mark = c.nfired
             RUN[pair](c, rng)
     if idx % 50 == 0:
         mon.sample(c.info["hist"])
@@ -457,13 +467,13 @@ def case_roundtrip(mon, idx, rng):
         mon.note("source-changed-by-a-converter")
         return
     # second pass: the same object, edited in place through the public API since it was last converted
-    if idx % 2:
+    if idx % 2 or c.nfired:
         return
     calls = O.mutate(rng, c.net)
     if not calls or not O.valid(c.net):
         mon.note("again:mutation-not-usable")
         return
-    c.info["hist"] = c.info["hist"] + ["-- every pair was run once on the network so far; then, in place:"] + calls
+    c.info = dict(c.info, hist=c.info["hist"] + ["-- every pair was run once on the network so far; then, in place:"] + calls)
     c.src = O.obs(c.net)
     if repr(c.src.brief()) == before:
         mon.note("again:mutation-without-effect")
@@ -472,7 +482,31 @@ def case_roundtrip(mon, idx, rng):
     c.override = AGAIN_TO
     for pair, classes in PAIRS.items():
         if cls in classes:
-            RUN[pair](c, rng)
+            _attributed(c, rng, lambda cc, r: RUN[pair](cc, r))
+
+
+def _attributed(c, rng, run):
+    """Run a second-call monitor with its firings held back; if it fires, repeat the same calls (same random choices) on an equal network
+    that was built afresh and never converted: if that fires too, the defect is not about the second call and is reported under the
+    ordinary trigger class of the control instead."""
+    state = rng.getstate()
+    c.collecting = held = []
+    try:
+        run(c, rng)
+    finally:
+        c.collecting = None
+    if held:
+        fresh = O.rebuild(c.net)
+        if fresh is not None:
+            c2 = Ctx(c.mon, fresh, c.info, O.obs(fresh))
+            c2.collecting, c2.no_again = [], True
+            r2 = random.Random()
+            r2.setstate(state)
+            run(c2, r2)
+            held = c2.collecting or held
+            c.mon.note("again:control-experiments")
+    for key, what, wit in held:
+        c.mon.fail(key, what, wit)
 
 
 # ---- from_bipartite_graph: insertion-order independence --------------------------------
@@ -551,6 +585,8 @@ def case_graph_order(mon, idx, rng):
         mon.note("graph-order:dual")
     variant = f"order={order} orientation={orient} naming={naming} dual={dual}"
 
+    fired = [0]
+
     def compare(back, trig):
         got = O.obs(back)
         mon.ev()
@@ -561,6 +597,7 @@ def case_graph_order(mon, idx, rng):
         if got.inc != exp.inc or got.inc2 != exp.inc:
             rev = {(t[1], t[0]) + tuple(t[2:]) for t in exp.inc}
             clause = "nodes-edges-swapped" if (got.inc & rev) - exp.inc else "incidences"
+            fired[0] += 1
             mon.fail(f"{name}|{trig}|{clause}", f"the hypergraph depends on the insertion order of the graph's vertices ({variant}): {O._sd(exp.inc, got.inc)}", wit)
         elif not dual and set(got.nodes) != set(exp.nodes):
             mon.fail(f"{name}|{trig}|node-set", f"vertices with bipartite=0 are not exactly the nodes: {O._sd(set(exp.nodes), set(got.nodes))}", wit)
@@ -568,7 +605,7 @@ def case_graph_order(mon, idx, rng):
     def go():
         back = xgi.from_bipartite_graph(G, dual=dual)
         compare(back, trigger)
-        if idx % 3 == 0:  # the same graph object converted again after the first result was defaced
+        if idx % 3 == 0 and not fired[0]:  # the same graph object converted again after the first result was defaced
             O.scribble(back)
             mon.note(f"again:{AGAIN_FROM}")
             compare(xgi.from_bipartite_graph(G, dual=dual), AGAIN_FROM)
@@ -593,7 +630,7 @@ def case_class(mon, idx, rng):
     how = rng.choice(("constructor", "to_function"))
     fn = {"Hypergraph": xgi.to_hypergraph, "DiHypergraph": xgi.to_dihypergraph, "SimplicialComplex": xgi.to_simplicial_complex}[tgt]
 
-    def go():
+    def go(c=c):
         src = c.src
         back = _cls(tgt)(c.net) if how == "constructor" else fn(c.net)
         got = O.obs(back)
@@ -657,14 +694,14 @@ def case_class(mon, idx, rng):
                 fire("edge-attributes", f"(source, target) for source edges with a unique member set: {bad}")
 
     c.guarded(name, srcname, go, how)
-    if idx % 2 == 0:  # the same source object, edited in place since it was last converted
+    if (idx // len(C2C)) % 2 == 0 and not c.nfired:  # the same source object, edited in place since it was last converted
         calls = O.mutate(rng, c.net)
         if calls and O.valid(c.net):
-            c.info["hist"] = c.info["hist"] + [f"-- {name} was run once on the network so far; then, in place:"] + calls
+            c.info = dict(c.info, hist=c.info["hist"] + [f"-- {name} was run once on the network so far; then, in place:"] + calls)
             c.src = O.obs(c.net)
             mon.note("again:mutated-in-place")
             c.override = AGAIN_TO
-            c.guarded(name, srcname, go, how)
+            _attributed(c, rng, lambda cc, r: cc.guarded(name, srcname, lambda: go(cc), how))
 
 
 # ---- colliding string casts ------------------------------------------------------------------
